@@ -192,6 +192,11 @@ def seconds (d : Int) : Int := Int.tdiv d Types.second
 def milliseconds (d : Int) : Int := Int.tdiv d Types.millisecond
 def microseconds (d : Int) : Int := d
 
+/-- `floorDays` of `asetypes/bytes.go`: whole days rounded toward negative infinity (`%` of Go truncates) -/
+def floorDays (d : Int) : Int :=
+  let ds := days d
+  if d < 0 ∧ Int.tmod d Types.day ≠ 0 then ds - 1 else ds
+
 /-- the Julian day number formula ("Calendars" by Doggett) as written in `DurationFromDateTime` and
 `TimeToMicroseconds` -/
 def goJdn (y m d : Int) : Int :=
